@@ -30,13 +30,29 @@ structure OpenView where
   ms : String
   asc : Bool
 
+/-- The model keeps its two stores as functions (`Nat → Table`, `String → File`); a step wraps
+the previous function in a closure, so an unbounded run would evaluate ever deeper chains.
+After every line the driver replaces the stores by extensionally equal functions backed by a
+list over the ids in use (tables below `nextTab`, the file names the run has mentioned). -/
+def flatten (names : List FileId) (σ : St) : St :=
+  let ts : List (Nat × Table) := (List.range σ.nextTab).map fun t => (t, σ.tables t)
+  let fs : List (FileId × File) := names.map fun f => (f, σ.files f)
+  { σ with
+    tables := fun t => match ts.find? (·.1 == t) with
+      | some p => p.2
+      | none => {}
+    files := fun f => match fs.find? (·.1 == f) with
+      | some p => p.2
+      | none => {} }
+
 structure DSt where
+  names : List FileId := []
   inst : List (String × St)
   -- per measurement: the vids of its open views, parallel to `St.views`
   vids : List (String × List Nat)
   dirs : List (Nat × Bool)
 
-def DSt.empty : DSt := ⟨[], [], []⟩
+def DSt.empty : DSt := { inst := [], vids := [], dirs := [] }
 
 def DSt.get (d : DSt) (ms : String) : Option St := (d.inst.find? (·.1 = ms)).map (·.2)
 
@@ -90,7 +106,7 @@ def step (d : DSt) (line : String) : DSt × String :=
   | "note" :: _ => (d, "ok")
   | ["open", _, mss] =>
     let ms := mss.splitOn ","
-    ({ inst := ms.map fun m => (m, St.init), vids := ms.map fun m => (m, []), dirs := [] }, "ok")
+    ({ names := [], inst := ms.map fun m => (m, St.init), vids := ms.map fun m => (m, []), dirs := [] }, "ok")
   | ["write", rows] =>
     match (rows.splitOn ";").mapM parseMsRow with
     | none => (d, "bad-op")
@@ -147,7 +163,9 @@ def step (d : DSt) (line : String) : DSt × String :=
             match σ2.release i with
             | none => (d, "bad-op")
             | some σ3 =>
-              (d.set ms σ3, if rows.isEmpty then "view none rows " else showView v ++ " " ++ showRows rows)
+              (d.set ms σ3,
+                if !σ2.readable v then "err closed"
+                else if rows.isEmpty then "view none rows " else showView v ++ " " ++ showRows rows)
     | _, _ => (d, "bad-op")
   | ["take", vid, c, ms, dir] =>
     match vid.toNat?, c.toNat?, d.get ms with
@@ -175,7 +193,7 @@ def step (d : DSt) (line : String) : DSt × String :=
         match d.get ms, d.dirs.find? (·.1 = id) with
         | some σ, some (_, asc) =>
           match σ.views[vs.idxOf id]? with
-          | some v => (d, showRows (viewRows σ v asc))
+          | some v => (d, if σ.readable v then showRows (viewRows σ v asc) else "err closed")
           | none => (d, "bad-op")
         | _, _ => (d, "bad-op")
   | ["release", vid] =>
@@ -194,10 +212,20 @@ def step (d : DSt) (line : String) : DSt × String :=
           | none => (d, "bad-op")
   | _ => (d, "bad-op")
 
+/-- file names a line mentions (anything that looks like a data file). -/
+def lineNames (line : String) : List FileId :=
+  ((line.trimAscii.toString.splitOn " ").flatMap fun w => w.splitOn ",").filter fun w => w.endsWith ".tssp"
+
+def stepFlat (d : DSt) (line : String) : DSt × String :=
+  let names := (lineNames line).foldl (fun ns n => if ns.contains n then ns else n :: ns)
+    (if line.startsWith "open" then [] else d.names)
+  let (d', o) := step { d with names := names } line
+  ({ d' with names := names, inst := d'.inst.map fun p => (p.1, flatten names p.2) }, o)
+
 partial def loop (h : IO.FS.Stream) (out : IO.FS.Stream) (d : DSt) : IO Unit := do
   let line ← h.getLine
   if line.isEmpty then return ()
-  let (d', o) := step d line
+  let (d', o) := stepFlat d line
   out.putStrLn o
   loop h out d'
 
